@@ -60,7 +60,7 @@ def run(ctx):
             extra = rng.choice([{}, {"apu": "QWxpY2U", "apv": "Qm9i"}, {"apv": "Qg"}]) if alg.startswith("ECDH") else rng.choice([{}, {"typ": "x"}, {"kid": "k"}])
             if forced_extra is not None:
                 extra = dict(forced_extra)
-            aad = rng.choice([b"aad", b"\x00\x01"]) if ser != "compact" and rng.random() < 0.5 else None
+            aad = rng.choice([b"aad", b"\x00\x01", b"", b"a" * 300]) if ser != "compact" and rng.random() < 0.5 else None
             unprot = {"jku": "https://e.example/k"} if ser != "compact" and rng.random() < 0.3 else None
             reg = E.JReg()
             pre_attached = rng.random() < 0.5
